@@ -15,7 +15,7 @@ from .. import docmodel as M
 from .. import impl as I
 from .. import pick as P
 
-HDR = ['a', 'b', '1', '.', '(', ')', '[', '\\', '$', '*', '+', '?', '^', '{', '|', '<', '>', ' ']
+HDR = ['a', 'b', '1', '.', '(', ')', '[', '\\', '$', '*', '+', '?', '^', '{', '|', '<', '>', ' ', '\n']
 VAL = ['a', '1', '\\', '$', '&', 'g', '<', '>', '.', ' ']
 
 
@@ -87,7 +87,7 @@ def check_ast(ast, acc, case):
         acc.violation('compile-exception', case, 'Compiler.compile raised ' + got[1])
         return
     e = P.p_c09(exp)
-    for route, res in (('fresh compiler', got), ('compiler that compiled other documents before', P.compile_reused(ast))):
+    for route, res in P.routes(ast, got):
         if res[0] != 'ok':
             acc.violation('compile-exception', case, 'Compiler.compile (%s) raised %s' % (route, res[1]))
             return False
@@ -193,6 +193,10 @@ def run(ctx):
     ctx.level('single column: headers<=%d values<=%d' % (hlen, vlen), [job_single.job(i, hlen, vlen) for i in range(len(HDR))])
     ctx.level('two columns', [job_double.job(i) for i in range(len(HDR))])
     ctx.level('through the parser: headers<=%d' % hlen, [job_parser.job(i, hlen) for i in range(len(HDR))])
+    from .. import astgen as A
+    from .. import gen as G
+    ctx.level('pairs of feature modules', [A.job_shapes.job(__name__, 'pairs', s, 16, ctx.quick) for s in range(16)])
+    ctx.level('deviation documents k<=1 via parser', [A.job_deviations.job(__name__, b, 1, 0, 1) for b in range(len(G.base_documents()))])
 
 
 def replay(case):
